@@ -153,7 +153,7 @@ impl Prop for C11 {
             gen::moderate(20),
             vec(any::<u16>(), 4..10),
             gen::common_scale(250),
-            (prop_oneof![4 => Just(1.0), 1 => (-100i32..=40).prop_map(|k| ppv_exact::pow2_f64(k as i64))], 0u8..18),
+            (prop_oneof![16 => Just(1.0), 4 => (-100i32..=40).prop_map(|k| ppv_exact::pow2_f64(k as i64)), 1 => (1000i32..=1019).prop_map(|k| ppv_exact::pow2_f64(k as i64))], 0u8..18),
         )
             .prop_map(|((fam, deg0, shift, kclass, kfrac), ends0, pool, ky, qs, sc, (xsc, open))| {
                 let pool: Vec<f64> = pool.into_iter().map(|v| v * sc).collect();
@@ -183,8 +183,14 @@ impl Prop for C11 {
                 alpha.retain(|t| t.is_finite() && t.abs() < 100.0 && (fam == 0 || *t > 1e-3));
                 let ts: Vec<f64> = qs.iter().map(|&q| alpha[idx(q, alpha.len())] * xsc).collect();
                 // common abscissa scale (exact power of two) and, 1 case in 6, an open-ended last piece
+                let huge = xsc > 1e100;
                 let mut ends: Vec<f64> = ends.iter().map(|e| e * xsc).collect();
                 let kx = kx * xsc;
+                // with a huge abscissa scale (adjacent breakpoints of opposite sign whose DISTANCE overflows) only
+                // constant pieces with tiny values keep every magnitude representable
+                let (deg, pool, ky) = if huge && fam == 0 { (0u8, pool.iter().map(|v| v * 2.0f64.powi(-700)).collect::<Vec<f64>>(), ky * 2.0f64.powi(-700)) } else { (deg, pool, ky) };
+                // coincidence between two inputs: the knot ordinate is bit-equal to the first breakpoint
+                let ky = if open == 17 { ends[0] } else { ky };
                 if open < 3 {
                     let n = ends.len();
                     ends[n - 1] = [f64::INFINITY, f64::MAX, 1e200][open as usize];
